@@ -401,13 +401,13 @@ def r6_streams_and_text_ranges(ctx):
             if isinstance(t, ast.If) and isinstance(t.test, ast.Call) and u(t.test.func) == "isinstance" and u(t.test.args[0]) == d and any(lp in list(ast.walk(t)) for lp in loops):
                 ty = t.test.args[1]
                 kinds |= {u(e) for e in (ty.elts if isinstance(ty, ast.Tuple) else [ty])}
-    ctx.ob(f.where, "both kinds of stream (plain and grouped) are written piece by piece", kinds >= {"BnpStream", "grouped_stream"}, str(sorted(kinds)), key="C03-R6|stream-kinds")
+    ctx.ob(f.where, "both kinds of stream (plain and grouped) are written piece by piece", kinds >= {"BnpStream", "grouped_stream"}, str(sorted(kinds)), key="C03-R6|stream-kinds", definite=True)
     for lp in loops:
         piece = lp.target.elts[-1] if isinstance(lp.target, ast.Tuple) else lp.target
         pv = u(piece)
         exits = [n for st in lp.body for n in walk_local(st) if isinstance(n, (ast.Break, ast.Return))]
         ctx.ob(f.where, "a stream is written to its end: the loop over its pieces has no early exit (an empty piece in the middle does not end the stream)", not exits and not lp.orelse,
-               "; ".join(f"line {n.lineno}: {type(n).__name__.lower()}" for n in exits), key=f"C03-R6|stream-loop|{u(lp.target)}")
+               "; ".join(f"line {n.lineno}: {type(n).__name__.lower()}" for n in exits), key=f"C03-R6|stream-loop|{u(lp.target)}", definite=True)
         ws = [n for n in g.nodes if n.kind == "stmt" and n.ast in list(ast.walk(lp)) and any(isinstance(c, ast.Call) and u(c.func) == "self.write" and c.args and u(c.args[0]) == pv
                                                                                            for c in walk_local(n.ast))]
         ok = len(ws) == 1
@@ -427,7 +427,7 @@ def r6_streams_and_text_ranges(ctx):
                 raise Unrecognised(f"{f.where}: a stream piece is written under a condition the checker does not know: {extra}")
             if skipping:
                 ok = False
-        ctx.ob(f.where, "each piece is handed to the same writer; only empty pieces are skipped", ok, detail, key=f"C03-R6|stream-piece|{u(lp.target)}")
+        ctx.ob(f.where, "each piece is handed to the same writer; only empty pieces are skipped", ok, detail, key=f"C03-R6|stream-piece|{u(lp.target)}", definite=True)
     # (b)
     OL = "bionumpy.io.one_line_buffer"
     base = ix.cls(OL, "OneLineBuffer")
@@ -457,7 +457,7 @@ def r6_streams_and_text_ranges(ctx):
         else:
             raise Unrecognised(f"{m.where}: text range accessor returns through `{fn}`")
         ctx.ob(m.where, f"{c.name}: untouched columns are supplied to the writer as the file's own text (the text accessor), not through the typed column accessor "
-               "(which decodes e.g. FASTQ qualities to numbers)", ok, u(calls_[0]), key=f"C03-R6|text-range|{c.name}")
+               "(which decodes e.g. FASTQ qualities to numbers)", ok, u(calls_[0]), key=f"C03-R6|text-range|{c.name}", definite=True)
         # every override of the typed accessor that converts a column must have a text override for the same column
         typed = ix.lookup_method(c, "get_field_by_number")
         text = ix.lookup_method(c, "get_text_field_by_number")
@@ -468,7 +468,7 @@ def r6_streams_and_text_ranges(ctx):
             okc = bool(same) and all(isinstance(r, ast.Return) and isinstance(r.value, ast.Call) and u(r.value.func) == "self._buffer_extractor.get_field_by_number"
                                      for r in same[0].body if isinstance(r, ast.Return)) and any(isinstance(r, ast.Return) for r in same[0].body)
             ctx.ob(text.where, f"{c.name}: the column that the typed accessor converts ({tt}) is served by the text accessor straight from the file bytes", okc, "",
-                   key=f"C03-R6|text-override|{c.name}|{tt}")
+                   key=f"C03-R6|text-override|{c.name}|{tt}", definite=True)
     ctx.floor("line-group buffer classes with a text range accessor", n, 3)
     from .c07 import r5_stale_shape
     r5_stale_shape(ctx)
